@@ -112,8 +112,11 @@ impl Inst {
     fn symmetric(&self) -> bool {
         for v in 0..self.n {
             for (u, w) in self.row(v) {
-                if !self.row(u).any(|(x, y)| x == v && y == w) {
-                    return false;
+                // rows are strictly increasing: binary search
+                let (a, b) = (self.indptr[u], self.indptr[u + 1]);
+                match self.indices[a..b].binary_search(&v) {
+                    Ok(k) if self.data[a + k] == w => {}
+                    _ => return false,
                 }
             }
         }
@@ -196,7 +199,10 @@ fn parse_inst(n: &str, threads: &str, imb: &str, secs: &[Vec<&str>], max_n: usiz
     if data.iter().any(|w| w.abs() > 1000) {
         return None;
     }
-    if weights.len() != n || weights.iter().any(|&w| !(0..=(1i64 << 41)).contains(&w)) {
+    if weights.len() != n || weights.iter().any(|&w| !(0..=(1i64 << 61)).contains(&w)) {
+        return None;
+    }
+    if weights.iter().map(|&w| w as i128).sum::<i128>() >= 1i128 << 62 {
         return None;
     }
     if parts.len() != n || parts.iter().any(|&p| p >= 1024) {
@@ -207,7 +213,7 @@ fn parse_inst(n: &str, threads: &str, imb: &str, secs: &[Vec<&str>], max_n: usiz
 
 // ------------------------------------------------------------------ large / corner instances
 
-const SHAPES: [&str; 2] = ["grid", "rand4"];
+const SHAPES: [&str; 8] = ["grid", "rand4", "star", "dstar", "complete", "bip3", "wheel", "hubs"];
 
 /// Deterministic instance of the LARGE stream. `grid`: vertices numbered row by row, rows of `rowlen`
 /// (the last row may be shorter); `rand4`: random graph of maximum degree 4. Parts: `pshape` 0 random,
@@ -241,7 +247,7 @@ fn big_inst(
                 adj[i + r].push((i, w));
             }
         }
-    } else {
+    } else if shape == "rand4" {
         for i in 0..n {
             for _ in 0..2 {
                 let j = rng.usize(n);
@@ -251,6 +257,83 @@ fn big_inst(
                     adj[j].push((i, w));
                 }
             }
+        }
+    } else {
+        // HUB-HEAVY shapes (vertices of degree > 64)
+        let mut es: BTreeSet<(usize, usize)> = BTreeSet::new();
+        let mut add = |a: usize, b: usize| {
+            if a != b && a < n && b < n {
+                es.insert((a.min(b), a.max(b)));
+            }
+        };
+        match shape {
+            "star" => {
+                let c = rng.usize(n);
+                for i in 0..n {
+                    add(c, i);
+                }
+            }
+            "dstar" => {
+                let (a, b) = (rng.usize(n), rng.usize(n));
+                add(a, b);
+                for i in 0..n {
+                    match rng.usize(5) {
+                        0 | 1 => add(a, i),
+                        2 | 3 => add(b, i),
+                        _ => {
+                            add(a, i);
+                            add(b, i)
+                        }
+                    }
+                }
+            }
+            "complete" => {
+                for i in 0..n {
+                    for j in 0..i {
+                        add(i, j);
+                    }
+                }
+            }
+            "bip3" => {
+                for i in 3..n {
+                    for h in 0..3 {
+                        add(h, i);
+                    }
+                }
+            }
+            "wheel" => {
+                for i in 1..n {
+                    add(0, i);
+                    add(i, if i + 1 < n { i + 1 } else { 1 });
+                }
+            }
+            _ => {
+                // "hubs": a sparse rest plus a few hubs of degree `rowlen` (65..600)
+                for i in 0..n {
+                    let j = rng.usize(n);
+                    add(i, j);
+                }
+                let hubs = 1 + (seed % 4) as usize;
+                let d = rowlen.clamp(65, 600).min(n.saturating_sub(1));
+                for _ in 0..hubs {
+                    let h = rng.usize(n);
+                    let mut got = 0;
+                    let mut tries = 0;
+                    while got < d && tries < 20 * d {
+                        let j = rng.usize(n);
+                        tries += 1;
+                        if j != h {
+                            add(h, j);
+                            got += 1;
+                        }
+                    }
+                }
+            }
+        }
+        for (a, b) in es {
+            let w = ew(&mut rng);
+            adj[a].push((b, w));
+            adj[b].push((a, w));
         }
     }
     let mut indptr = vec![0usize];
@@ -310,6 +393,9 @@ fn parse_gfree(head: &[&str]) -> Option<Inst> {
         return None;
     }
     if rowlen > 1_000_000 || pshape > 5 || wmode > 3 {
+        return None;
+    }
+    if (shape == "complete" && n > 128) || (shape == "bip3" && n > 4096) {
         return None;
     }
     Some(big_inst(n, threads, imb, shape, rowlen, seed, k, pshape, wmode))
@@ -925,23 +1011,25 @@ fn oracle(inst: &Inst, md: &MdVals, out: &[usize], trace: Option<&[(usize, Ev)]>
     if md.gain < 0 {
         v.push(("arcswap-negative-gain", format!("edge_cut_gain = {}", md.gain)));
     }
+    // exact integers (i128): with `None` the cap is the heaviest input part, no slack at all
     let load = |ids: &[usize]| {
-        let mut l = vec![0i64; part_count];
+        let mut l = vec![0i128; part_count];
         for (i, &p) in ids.iter().enumerate() {
-            l[p] += inst.weights[i];
+            l[p] += inst.weights[i] as i128;
         }
         l
     };
     let lin = load(&inst.parts);
     let lout = load(out);
-    let total: i64 = lin.iter().sum();
-    let cap = match inst.imb {
+    let total: i128 = lin.iter().sum();
+    let cap: Option<i128> = match inst.imb {
         None => Some(*lin.iter().max().unwrap()),
-        Some(x) => exact_cap(x, total, part_count),
+        Some(x) if total < 1i128 << 53 => exact_cap(x, total as i64, part_count).map(|c| c as i128),
+        Some(_) => None,
     };
     if let Some(cap) = cap {
         for p in 0..part_count {
-            if lout[p] > i64::max(lin[p], cap) {
+            if lout[p] > i128::max(lin[p], cap) {
                 v.push((
                     "arcswap-cap",
                     format!("part {} weighs {} > max(input {}, cap {})", p, lout[p], lin[p], cap),
@@ -1601,8 +1689,126 @@ fn large_stream(ctx: &mut Ctx) {
     }
 }
 
+/// HUB-HEAVY graphs (vertices of degree 65..600: stars, double stars, K_66..K_100, K_{3,m}, wheels,
+/// a few hubs on a sparse rest): (a) many short free-running runs with 16 / 8 threads, full oracle (cut
+/// accounting is the detector of a stale gain); (b) controlled-scheduler runs on 66..100-vertex instances
+/// with 2-3 workers under random schedules, whole trace compared with the model (the access ORDER of a
+/// vertex must not depend on its degree).
+fn hub_stream(ctx: &mut Ctx) {
+    const HUBS: [&str; 6] = ["star", "dstar", "complete", "bip3", "wheel", "hubs"];
+    let gen = |ctx: &mut Ctx, small: bool| -> (usize, &'static str, usize) {
+        let shape = HUBS[ctx.rng.usize(6)];
+        let n = match shape {
+            "complete" => 66 + ctx.rng.usize(if small { 6 } else { 35 }),
+            "bip3" => {
+                if small {
+                    70 + ctx.rng.usize(30)
+                } else {
+                    *ctx.rng.pick(&[203usize, 70, 150, 300])
+                }
+            }
+            _ => {
+                if small {
+                    66 + ctx.rng.usize(35)
+                } else {
+                    66 + ctx.rng.usize(635)
+                }
+            }
+        };
+        let deg = 65 + ctx.rng.usize(if small { 30 } else { 536 });
+        (n, shape, deg)
+    };
+    // (b) controlled scheduler, event-by-event comparison with the model
+    for c in 0..ctx.budget(7, 40) {
+        let (n, shape, deg) = gen(ctx, true);
+        let shape = if c < 6 { HUBS[c] } else { shape };
+        let n = if shape == "complete" { 66 + ctx.rng.usize(3) } else { n };
+        let workers = 2 + ctx.rng.usize(2);
+        let k = if shape == "complete" { 2 } else { 2 + ctx.rng.usize(3) };
+        let imb = *ctx.rng.pick(&[Some(0.5), Some(2.0), None, Some(0.1)]);
+        let (seed, wmode) = (ctx.rng.next() >> 1, ctx.rng.usize(4));
+        let inst = big_inst(n, workers, imb, shape, deg, seed, k, 0, wmode);
+        let (sseed, kind) = (ctx.rng.next(), ctx.rng.usize(3) as u8);
+        let d = run_controlled(&inst, Policy::Random { rng: Rng::new(sseed), kind, last: None });
+        ctx.count(&format!("hub:ctl:{}", shape));
+        run_op(ctx, &inst.ctl_op(&d.sched));
+    }
+    // sequential model comparison on hub graphs
+    for _ in 0..ctx.budget(6, 60) {
+        let (n, shape, deg) = gen(ctx, false);
+        let k = 2 + ctx.rng.usize(3);
+        let imb = *ctx.rng.pick(&[Some(0.5), Some(2.0), None, Some(0.05)]);
+        let (seed, wmode) = (ctx.rng.next() >> 1, ctx.rng.usize(4));
+        let inst = big_inst(n, 1, imb, shape, deg, seed, k, 0, wmode);
+        ctx.count(&format!("hub:seq:{}", shape));
+        run_op(ctx, &inst.seq_op());
+    }
+    // (a) free-running stress
+    for _ in 0..ctx.budget(1500, 20000) {
+        let (n, shape, deg) = gen(ctx, false);
+        let threads = if ctx.rng.chance(3, 4) { 16 } else { 8 };
+        let k = 2 + ctx.rng.usize(3);
+        let imb = *ctx.rng.pick(&[Some(0.5), Some(2.0), Some(1.0), None, Some(0.05)]);
+        let (seed, wmode) = (ctx.rng.next() >> 1, ctx.rng.usize(4));
+        ctx.count(&format!("hub:free:{}", shape));
+        run_op(ctx, &gfree_op(n, threads, imb, shape, deg, seed, k, 0, wmode));
+    }
+}
+
+/// HUGE vertex weights: a base weight B = 2^53..2^60 on a few vertices of every part plus small
+/// offsets, light vertices around them, `max_imbalance: None` (the cap is the exact heaviest input part,
+/// the rooms `max_pw - pw` are small integers: everything is exact in the clean code, the oracle has no
+/// slack). 1-3 threads; sequential and controlled runs are compared with the model.
+fn huge_stream(ctx: &mut Ctx) {
+    for c in 0..ctx.budget(14, 120) {
+        let e = 53 + (c % 8) as u32;
+        let b = 1i64 << e;
+        let threads = 1 + c % 3;
+        let k = 2 + ctx.rng.usize(2);
+        // heavy vertices per part: part weight x threads must stay below 2^62 (merge formula)
+        let m_max = ((1i64 << 61) / b / (k as i64 * 3)).clamp(1, 3) as usize;
+        let m = 1 + ctx.rng.usize(m_max);
+        let light = 8 + ctx.rng.usize(24);
+        let n = k * m + light;
+        let mut weights = vec![0i64; n];
+        let mut parts = vec![0usize; n];
+        let mut order: Vec<usize> = (0..n).collect();
+        ctx.rng.shuffle(&mut order);
+        for (j, &v) in order.iter().enumerate() {
+            if j < k * m {
+                parts[v] = j % k;
+                weights[v] = b + ctx.rng.range(0, 9);
+            } else {
+                parts[v] = ctx.rng.usize(k);
+                weights[v] = ctx.rng.range(1, 8);
+            }
+        }
+        let mut edges = BTreeMap::new();
+        for i in 0..n {
+            for _ in 0..2 {
+                let j = ctx.rng.usize(n);
+                if i != j {
+                    add_edge(&mut edges, i, j, ctx.rng.range(1, 5));
+                }
+            }
+        }
+        let inst = Inst::from_edges(n, threads, None, &edges, weights, parts);
+        ctx.count(&format!("corner:huge-weights 2^{}", e));
+        if threads == 1 {
+            run_op(ctx, &inst.seq_op());
+        } else {
+            let sseed = ctx.rng.next();
+            let d = run_controlled(&inst, Policy::Random { rng: Rng::new(sseed), kind: (c % 3) as u8, last: None });
+            run_op(ctx, &inst.ctl_op(&d.sched));
+            run_op(ctx, &inst.free_op());
+        }
+    }
+}
+
 pub fn generate(ctx: &mut Ctx) {
     large_stream(ctx);
+    hub_stream(ctx);
+    huge_stream(ctx);
     // ---- controlled random schedules: discovery run, then recorded replay
     let n_ctl = ctx.budget(150, 5000);
     let mut done = 0;
